@@ -19,6 +19,16 @@ type outcome struct {
 	ns    int64
 }
 
+// exactFirst is set while the cases of C01 run (see runOp).
+var exactFirst bool
+
+// exactcap copies b into a slice whose capacity equals its length.
+func exactcap(b []byte) []byte {
+	x := make([]byte, len(b))
+	copy(x, b)
+	return x[:len(b):len(b)]
+}
+
 // padcap copies b into a slice with spare capacity filled with a sentinel, so that a decoder that
 // re-slices past len (into cap) reads 0xA5 octets instead of silently seeing zeros or neighbours.
 func padcap(b []byte) []byte {
@@ -342,10 +352,24 @@ func runOp(op *Sx) *Sx {
 	switch op.L[0].Y {
 	case "dec", "inflated":
 		if len(a) == 2 && a[0].K == 'y' && a[1].K == 'b' {
+			if exactFirst {
+				// C01: Go checks slice bounds against the CAPACITY, so a decoder that re-slices a few octets past
+				// len only panics when the buffer has no spare room; with spare room it reads what lies behind.
+				// Both situations are tried: exact capacity first (panics), then sentinel-filled spare capacity.
+				if o := decByName(a[0].Y, exactcap(a[1].B)); !isOk(o) && o.K == 'l' && len(o.L) == 1 && o.L[0].isSym("panic") {
+					return o
+				}
+			}
 			return decByName(a[0].Y, padcap(a[1].B))
 		}
 	case "dgram":
 		if len(a) == 1 && a[0].K == 'b' {
+			if exactFirst {
+				x := exactcap(a[0].B)
+				if o := guard(func() *Sx { return packetsRes(rtcp.Unmarshal(x)) }); o.K == 'l' && len(o.L) == 1 && o.L[0].isSym("panic") {
+					return o
+				}
+			}
 			b := padcap(a[0].B)
 			return guard(func() *Sx { return packetsRes(rtcp.Unmarshal(b)) })
 		}
